@@ -186,136 +186,155 @@ func genC19(c *fw.Ctx) {
 											}
 											urlTags = append([]string{urlTags[0], undeclName}, urlTags[1:]...)
 										}
-										if !c.Next() {
-											continue
-										}
-										c.Count("evaluations", 1)
-										n := doc.N
-										url := n("URL", "/u/{id}")
-										url.Paren = paren
-										var exp []expI
-										pick := func(own []string, auto string) []string {
-											if own != nil {
-												return own
+										for descVar := 0; descVar <= 1; descVar++ {
+											// descVar 1: a bare Description directly before each method's Tags (the free
+											// text must end where the Tags line starts)
+											if descVar == 1 && (hoist || declAfter || (t1 == nil && t2 == nil)) {
+												continue
+											}
+											if !c.Next() {
+												continue
+											}
+											c.Count("evaluations", 1)
+											n := doc.N
+											url := n("URL", "/u/{id}")
+											url.Paren = paren
+											var exp []expI
+											pick := func(own []string, auto string) []string {
+												if own != nil {
+													return own
+												}
+												if urlTags != nil {
+													return urlTags
+												}
+												return []string{auto}
 											}
 											if urlTags != nil {
-												return urlTags
+												url.Kids = append(url.Kids, n("Tags", urlTags...))
 											}
-											return []string{auto}
-										}
-										if urlTags != nil {
-											url.Kids = append(url.Kids, n("Tags", urlTags...))
-										}
-										if proto == "http" {
-											a := n(kindA).WithKids(n("200", "any"))
-											b := n(kindB).WithKids(n("201", "empty"))
-											if t1 != nil {
-												a.Kids = append([]*doc.Node{n("Tags", t1...)}, a.Kids...)
+											if proto == "http" {
+												a := n(kindA).WithKids(n("200", "any"))
+												b := n(kindB).WithKids(n("201", "empty"))
+												if t1 != nil {
+													a.Kids = append([]*doc.Node{n("Tags", t1...)}, a.Kids...)
+													if descVar == 1 {
+														a.Kids = append([]*doc.Node{n("Description").WithBody("about a")}, a.Kids...)
+													}
+												}
+												if t2 != nil {
+													if descVar == 1 {
+														b.Kids = append(b.Kids, n("Description").WithBody("about b\n  more"))
+													}
+													b.Kids = append(b.Kids, n("Tags", t2...))
+												}
+												url.Kids = append(url.Kids, a, b)
+												exp = append(exp, expI{"http " + kindA + " /u/{id}", pick(t1, "@u")}, expI{"http " + kindB + " /u/{id}", pick(t2, "@u")})
+											} else {
+												a := n("Method", "ma")
+												b := n("Method", "mb").WithKids(n("Params").WithBody("{}"))
+												if t1 != nil {
+													if descVar == 1 {
+														a.Kids = append(a.Kids, n("Description").WithBody("about ma"))
+													}
+													a.Kids = append(a.Kids, n("Tags", t1...))
+												}
+												if t2 != nil {
+													b.Kids = append([]*doc.Node{n("Tags", t2...)}, b.Kids...)
+													if descVar == 1 {
+														b.Kids = append([]*doc.Node{n("Description").WithBody("about mb")}, b.Kids...)
+													}
+												}
+												url.Kids = append(url.Kids, n("Protocol", "json-rpc-2.0"), a, b)
+												exp = append(exp, expI{"json-rpc-2.0 ma /u/{id}", pick(t1, "@u")}, expI{"json-rpc-2.0 mb /u/{id}", pick(t2, "@u")})
 											}
-											if t2 != nil {
-												b.Kids = append(b.Kids, n("Tags", t2...))
+											nodes := []*doc.Node{doc.Jsight()}
+											if undeclared && undeclName == "@first" {
+												nodes = append(nodes, n("GET", "/first").WithParen().WithKids(n("200", "any")))
 											}
-											url.Kids = append(url.Kids, a, b)
-											exp = append(exp, expI{"http " + kindA + " /u/{id}", pick(t1, "@u")}, expI{"http " + kindB + " /u/{id}", pick(t2, "@u")})
-										} else {
-											a := n("Method", "ma")
-											b := n("Method", "mb").WithKids(n("Params").WithBody("{}"))
-											if t1 != nil {
-												a.Kids = append(a.Kids, n("Tags", t1...))
+											decl := []*doc.Node{n("TAG", "@g").WithAnn("Group G"), n("TAG", "@k").WithKids(n("Description").WithBody("about k"))}
+											// a declared tag that has the automatic name of the URL's first segment: the
+											// tagless interactions on that path belong to it, and it keeps its title
+											declU := !undeclared && (m1+m2+ui)%2 == 1
+											if declU {
+												decl = append(decl, n("TAG", "@u").WithAnn("U group"))
 											}
-											if t2 != nil {
-												b.Kids = append([]*doc.Node{n("Tags", t2...)}, b.Kids...)
+											if !declAfter {
+												nodes = append(nodes, decl...)
 											}
-											url.Kids = append(url.Kids, n("Protocol", "json-rpc-2.0"), a, b)
-											exp = append(exp, expI{"json-rpc-2.0 ma /u/{id}", pick(t1, "@u")}, expI{"json-rpc-2.0 mb /u/{id}", pick(t2, "@u")})
-										}
-										nodes := []*doc.Node{doc.Jsight()}
-										if undeclared && undeclName == "@first" {
-											nodes = append(nodes, n("GET", "/first").WithParen().WithKids(n("200", "any")))
-										}
-										decl := []*doc.Node{n("TAG", "@g").WithAnn("Group G"), n("TAG", "@k").WithKids(n("Description").WithBody("about k"))}
-										// a declared tag that has the automatic name of the URL's first segment: the
-										// tagless interactions on that path belong to it, and it keeps its title
-										declU := !undeclared && (m1+m2+ui)%2 == 1
-										if declU {
-											decl = append(decl, n("TAG", "@u").WithAnn("U group"))
-										}
-										if !declAfter {
-											nodes = append(nodes, decl...)
-										}
-										nodes = append(nodes, url)
-										if hoist {
-											// a path-bearing method right after the implicit URL block is a top-level interaction
-											h := n("DELETE", "/other/x").WithKids(n("204", "empty"))
-											want := expI{"http DELETE /other/x", []string{"@other"}}
-											if hoistKind == 2 {
-												// the same path as the block it leaves: not enclosed by the URL, so the automatic tag
-												h = n(kindH, "/u/{id}").WithKids(n("204", "empty"))
-												want = expI{"http " + kindH + " /u/{id}", []string{"@u"}}
+											nodes = append(nodes, url)
+											if hoist {
+												// a path-bearing method right after the implicit URL block is a top-level interaction
+												h := n("DELETE", "/other/x").WithKids(n("204", "empty"))
+												want := expI{"http DELETE /other/x", []string{"@other"}}
+												if hoistKind == 2 {
+													// the same path as the block it leaves: not enclosed by the URL, so the automatic tag
+													h = n(kindH, "/u/{id}").WithKids(n("204", "empty"))
+													want = expI{"http " + kindH + " /u/{id}", []string{"@u"}}
+												}
+												url.Kids = append(url.Kids, h)
+												exp = append(exp, want)
 											}
-											url.Kids = append(url.Kids, h)
-											exp = append(exp, want)
-										}
-										if proto == "http" && m2%2 == 0 {
-											// a top-level method on the URL's path, written after the block
-											exp = append(exp, expI{"http " + kindT + " /u/{id}", []string{"@u"}})
-										}
-										top := n("PUT", "/top").WithKids(n("200", "any"))
-										if m1%3 == 1 {
-											top.Kids = append(top.Kids, n("Tags", "@k"))
-											exp = append(exp, expI{"http PUT /top", []string{"@k"}})
-										} else {
-											exp = append(exp, expI{"http PUT /top", []string{"@top"}})
-										}
-										if proto == "http" && m2%2 == 0 {
-											nodes = append(nodes, n(kindT, "/u/{id}").WithParen().WithKids(n("200", "any")))
-										}
-										nodes = append(nodes, top)
-										if undeclaredAt == 1 {
-											bad := n("PATCH", "/bad").WithKids(n("Tags", undeclName), n("200", "any"))
-											nodes = append(nodes, bad)
-										}
-										if declAfter {
-											nodes = append(nodes, decl...)
-										}
-										text := doc.Text(nodes)
-										label := fmt.Sprintf("proto=%s kinds=%s,%s paren=%v url=%d m1=%d m2=%d hoist=%d after=%v declU=%v undeclared=%d", proto, kindA, kindB, paren, ui, m1, m2, hoistKind, declAfter, declU, undeclaredAt)
-										if undeclared {
-											label += " name=" + undeclName
-										}
-										c.Describe(label)
-										c.Distinct(text)
-										o := drv.RunMem("root.jst", text, opt)
-										if docTap != nil {
-											docTap(label, text, o)
-											continue
-										}
-										if o.Crashed() {
-											c.Count("skipped_crash", 1)
-											continue
-										}
-										if undeclared {
-											if !o.Rejected() {
-												c.Violate("undeclared-tag-accepted", "C19:undeclared", label+": a Tags directive naming an undeclared tag is "+o.Short(), map[string]interface{}{"text": text})
+											if proto == "http" && m2%2 == 0 {
+												// a top-level method on the URL's path, written after the block
+												exp = append(exp, expI{"http " + kindT + " /u/{id}", []string{"@u"}})
 											}
-											continue
-										}
-										if !o.OK() {
-											// the property speaks about the tags of interactions of accepted documents; a
-											// rejection (e.g. URL-level Tags next to Protocol) is not judged, only counted
-											c.Count("documents_rejected_not_judged", 1)
-											c.Sample("rejected (not judged)", 1, map[string]interface{}{"label": label, "diagnostic": o.Short()})
-											continue
-										}
-										c.Count("documents_accepted_and_compared", 1)
-										titles := map[string]string{"@g": "Group G", "@k": "@k"}
-										if declU {
-											titles["@u"] = "U group"
-										}
-										if bad := checkTags(o.JSON, exp, titles); bad != "" {
-											c.Violate("tags-wrong", "C19:tags:"+firstWordsN(bad, 2), label+": "+bad, map[string]interface{}{"text": text})
-										} else {
-											c.Sample("tags "+proto, 2, map[string]interface{}{"label": label, "text": text})
+											top := n("PUT", "/top").WithKids(n("200", "any"))
+											if m1%3 == 1 {
+												top.Kids = append(top.Kids, n("Tags", "@k"))
+												exp = append(exp, expI{"http PUT /top", []string{"@k"}})
+											} else {
+												exp = append(exp, expI{"http PUT /top", []string{"@top"}})
+											}
+											if proto == "http" && m2%2 == 0 {
+												nodes = append(nodes, n(kindT, "/u/{id}").WithParen().WithKids(n("200", "any")))
+											}
+											nodes = append(nodes, top)
+											if undeclaredAt == 1 {
+												bad := n("PATCH", "/bad").WithKids(n("Tags", undeclName), n("200", "any"))
+												nodes = append(nodes, bad)
+											}
+											if declAfter {
+												nodes = append(nodes, decl...)
+											}
+											text := doc.Text(nodes)
+											label := fmt.Sprintf("proto=%s kinds=%s,%s desc=%d paren=%v url=%d m1=%d m2=%d hoist=%d after=%v declU=%v undeclared=%d", proto, kindA, kindB, descVar, paren, ui, m1, m2, hoistKind, declAfter, declU, undeclaredAt)
+											if undeclared {
+												label += " name=" + undeclName
+											}
+											c.Describe(label)
+											c.Distinct(text)
+											o := drv.RunMem("root.jst", text, opt)
+											if docTap != nil {
+												docTap(label, text, o)
+												continue
+											}
+											if o.Crashed() {
+												c.Count("skipped_crash", 1)
+												continue
+											}
+											if undeclared {
+												if !o.Rejected() {
+													c.Violate("undeclared-tag-accepted", "C19:undeclared", label+": a Tags directive naming an undeclared tag is "+o.Short(), map[string]interface{}{"text": text})
+												}
+												continue
+											}
+											if !o.OK() {
+												// the property speaks about the tags of interactions of accepted documents; a
+												// rejection (e.g. URL-level Tags next to Protocol) is not judged, only counted
+												c.Count("documents_rejected_not_judged", 1)
+												c.Sample("rejected (not judged)", 1, map[string]interface{}{"label": label, "diagnostic": o.Short()})
+												continue
+											}
+											c.Count("documents_accepted_and_compared", 1)
+											titles := map[string]string{"@g": "Group G", "@k": "@k"}
+											if declU {
+												titles["@u"] = "U group"
+											}
+											if bad := checkTags(o.JSON, exp, titles); bad != "" {
+												c.Violate("tags-wrong", "C19:tags:"+firstWordsN(bad, 2), label+": "+bad, map[string]interface{}{"text": text})
+											} else {
+												c.Sample("tags "+proto, 2, map[string]interface{}{"label": label, "text": text})
+											}
 										}
 									}
 								}
